@@ -57,11 +57,21 @@ def g(s):
     return x  # TP:g_last
 
 
-class K:
+class KBase:
+    def tag(self):
+        return 1
+
+
+class K(KBase):
     """A second function named `f` in this file (a method): a method tracepoint names a function NAME."""
 
+    def tag(self):
+        # zero-argument super(): the frame has the compiler-made __class__ cell among its locals
+        t = super().tag()  # TP:ktag
+        return t + 1
+
     def f(self, s):
-        x = 0  # TP:kf_first
+        x = self.tag() - 2  # TP:kf_first
         for op in s:
             if op[0] == 'call':
                 x += _target(op[1])(op[2])
@@ -69,7 +79,7 @@ class K:
                 raise ValueError('boom')
             else:
                 x += 1
-        return x  # TP:kf_last
+        return x + self.tag() - 2  # TP:kf_last
 
 
 def kf(s):
